@@ -88,8 +88,8 @@ PROPS = {
     "C01": {
         "invariants": ["C01"],
         "mc": {"quick": [mc("Core-addr-2x2", must_cover=SUBMIT), mc("Core-sc-2x2", kinds="InitKindsSC", must_cover=SUBMITW)],
-               "thorough": [mc("Core-addr-2x3", maxops=3, must_cover=SUBMIT), mc("Core-sc-2x3", maxops=3, kinds="InitKindsSC"),
-                            mc("Core-weak-3x2", clients=C3, kinds="InitKindsWeak", cfgs="CfgsB1")]},
+               "thorough": [mc("Core-addr-2x2", must_cover=SUBMIT), mc("Core-addr-b1-2x3", maxops=3, cfgs="CfgsB1", must_cover=SUBMIT), mc("Core-addr-b0-2x3", maxops=3, cfgs="CfgsB0", ops=("send", "call", "ping")),
+                            mc("Core-sc-2x3", maxops=3, kinds="InitKindsSC"), mc("Core-weak-3x2", clients=C3, kinds="InitKindsWeak", cfgs="CfgsB1")]},
         "gen": {"quick": [gen("g-addr-b1-2x2", "Main_Addr2_B1", ops=("send", "call", "ping")), gen("g-ping-b1-2x2", "Main_Addr2_B1", ops=("send", "ping"), scripts="ScriptsCore")], "thorough": [gen("g-addr-b1-2x2", "Main_Addr2_B1", ops=("send", "call", "ping")), gen("g-sc-b1-2x2", "Main_SC_B1", ops=("send", "call"), scripts="ScriptsCore"), gen("g-addr-b0-2x3", "Main_Addr2_B0", maxops=3, ops=("send", "call"))]},
         "families": [("core", 250, 2500), ("timers", 60, 600), ("stream", 60, 600)],
         "relevant": r'"ev":"h_begin"', "relevant_min": 2,
@@ -97,7 +97,7 @@ PROPS = {
     "C02": {
         "invariants": ["C02"],
         "mc": {"quick": [mc("Core-addr-2x2", must_cover=SUBMIT), mc("Core-sc-2x2", kinds="InitKindsSC", must_cover=SUBMITW)],
-               "thorough": [mc("Core-addr-2x3", maxops=3), mc("Core-sc-2x3", maxops=3, kinds="InitKindsSC"),
+               "thorough": [mc("Core-addr-2x2", must_cover=SUBMIT), mc("Core-addr-b1-2x3", maxops=3, cfgs="CfgsB1"), mc("Core-sc-2x3", maxops=3, kinds="InitKindsSC"),
                             mc("Core-abandon-2x2", ops=("send", "call", "ping", "stop", "abandon"), cfgs="CfgsB1", must_cover=("Abandon",)),
                             mc("Core-abandon-sc-2x2", ops=("send", "call", "drop", "abandon"), cfgs="CfgsB1", kinds="InitKindsSC", must_cover=("Abandon",))]},
         "gen": {"quick": [gen("g-sc-b1-2x2", "Main_SC_B1", ops=("send", "call", "drop"))], "thorough": [gen("g-sc-b1-2x2", "Main_SC_B1", ops=("send", "call", "drop"), scripts="ScriptsCore"), gen("g-cancel-2x2", "Main_Addr2_B1", ops=("send", "call"), faults=("cancel",), maxfaults=1)]},
@@ -108,7 +108,8 @@ PROPS = {
     "C03": {
         "invariants": ["C03"],
         "mc": {"quick": [mc("Life-stop-2x2", ops=("send", "stop", "drop", "halt"), scripts="ScriptsStop", cfgs="CfgsTwo", must_cover=("StopTaken", "MailboxClosed", "StoppedEnd"))],
-               "thorough": [mc("Life-stop-2x3", maxops=3, ops=("send", "call", "stop", "drop", "halt"), scripts="ScriptsStop")]},
+               "thorough": [mc("Life-stop-2x2", ops=("send", "call", "stop", "drop", "halt"), scripts="ScriptsStop"),
+                            mc("Life-stop-b1-2x3", maxops=3, ops=("send", "stop", "drop", "halt"), scripts="ScriptsStop", cfgs="CfgsB1")]},
         "families": [("life", 200, 2000), ("restart", 80, 800), ("stream", 80, 800), ("timeout", 100, 1000), ("fail", 60, 600)],
         "relevant": r'"ev":"cb"', "relevant_min": 3,
     },
@@ -116,7 +117,8 @@ PROPS = {
         "invariants": ["C04", "Term_StopHonoured"],
         "mc": {"quick": [mc("Stop-2x2", ops=STOPOPS, scripts="ScriptsStop", cfgs="CfgsB1", must_cover=("StopTaken", "AwaitReturn", "Notify")),
                          mc("Stop-aw-2x2", ops=AWOPS, kinds="InitKindsAW", cfgs="CfgsB1", must_cover=("AwaitReturn",))],
-               "thorough": [mc("Stop-2x3", maxops=3, ops=STOPOPS, scripts="ScriptsStop", cfgs="CfgsTwo"),
+               "thorough": [mc("Stop-2x2", ops=STOPOPS, scripts="ScriptsStop", cfgs="CfgsCore"),
+                            mc("Stop-b1-2x3", maxops=3, ops=("send", "call", "stop", "halt", "await"), scripts="ScriptsPlain", cfgs="CfgsB1"),
                             mc("Stop-aw-3x2", clients=C3, ops=AWOPS, kinds="InitKindsAW", cfgs="CfgsB1")]},
         "gen": {"quick": [gen("g-stop-2x2", "Main_Addr2_B1", ops=("send", "call", "stop", "halt", "await"))], "thorough": [gen("g-stop-2x2", "Main_Addr2_B1", ops=("send", "call", "stop", "halt", "await"), scripts="ScriptsStop"), gen("g-aw-2x2", "Main_AW_Unb", ops=("send", "stop", "try_stop", "try_halt", "await_ref"))]},
         "live": [(mc("Live-stop-2x2", ops=("send", "call", "stop", "halt", "await"), scripts="ScriptsStop", cfgs="CfgsB1"), ["L_StopTerminates", "L_Resolves"])],
@@ -127,7 +129,7 @@ PROPS = {
         "invariants": ["C05", "Term_WeakInert"],
         "mc": {"quick": [mc("Life-handles-2x2", ops=HOPS, scripts="ScriptsPlain", must_cover=("MailboxClosed", "Upgrade", "DropH", "Convert")),
                          mc("Life-weak-2x2", ops=("send", "call", "drop", "upgrade", "clone"), kinds="InitKindsWeak", scripts="ScriptsPlain", cfgs="CfgsB1")],
-               "thorough": [mc("Life-handles-2x3", maxops=3, ops=HOPS, scripts="ScriptsPlain", cfgs="CfgsTwo"),
+               "thorough": [mc("Life-handles-b1-2x3", maxops=3, ops=HOPS, scripts="ScriptsPlain", cfgs="CfgsB1"),
                             mc("Life-weak-3x2", ops=("send", "call", "drop", "upgrade", "clone"), kinds="InitKindsWeak", scripts="ScriptsPlain", clients=C3, cfgs="CfgsB1")]},
         "gen": {"quick": [gen("g-drop-2x2", "Main_AW_Unb", ops=("send", "drop", "upgrade", "clone"))], "thorough": [gen("g-drop-2x3", "Main_AW_Unb", maxops=3, ops=("send", "drop", "upgrade", "downgrade"))]},
         "live": [(mc("Live-drop-2x2", ops=("send", "drop", "clone", "downgrade", "upgrade"), scripts="ScriptsPlain", cfgs="CfgsB1", kinds="InitKindsAW"), ["L_DropTerminates"])],
@@ -211,7 +213,8 @@ PROPS = {
     "C12": {
         "invariants": ["C12"],
         "mc": {"quick": [mc("Core-addr-2x2", must_cover=SUBMIT), mc("Core-b-2x2", kinds="InitKindsSC", cfgs="CfgsB1", ops=("send", "call", "stop"))],
-               "thorough": [mc("Core-addr-2x3", maxops=3, cfgs="CfgsCore2"), mc("Core-b-3x2", clients=C3, kinds="InitKindsSC", cfgs="CfgsB1", ops=("send", "call", "stop"))]},
+               "thorough": [mc("Core-addr-2x2", cfgs="CfgsCore2", must_cover=SUBMIT), mc("Core-addr-b1-2x3", maxops=3, cfgs="CfgsB1"), mc("Core-addr-b0-2x3", maxops=3, cfgs="CfgsB0", ops=("send", "call", "ping")),
+                            mc("Core-b-3x2", clients=C3, kinds="InitKindsSC", cfgs="CfgsB1", ops=("send", "call", "stop"))]},
         "gen": {"quick": [gen("g-addr-b0-2x2", "Main_Addr2_B0", ops=("send", "call", "stop"))], "thorough": [gen("g-addr-b0-2x3", "Main_Addr2_B0", maxops=3, ops=("send", "call")), gen("g-sc-b1-2x3", "Main_SC_B1", maxops=3, ops=("send", "call"))]},
         "live": [(mc("Live-send-2x2", ops=("send", "call", "stop"), scripts="ScriptsPlain", cfgs="CfgsB1", kinds="InitKindsSC"), ["L_SendReturns"]), (mc("Live-send0-2x2", ops=("send", "call", "drop"), scripts="ScriptsPlain", cfgs="CfgsCore"), ["L_SendReturns"])],
         "families": [("core", 250, 2500)],
@@ -236,7 +239,7 @@ PROPS = {
     "C15": {
         "invariants": ["C15"],
         "mc": {"quick": [mc("Kinds-2x2", ops=KOPS, scripts="ScriptsStop", cfgs="CfgsUnb", kinds="InitKindsCaller", must_cover=("Upgrade", "ScriptStep", "DropH"))],
-               "thorough": [mc("Kinds-2x3", maxops=3, ops=KOPS, scripts="ScriptsStop", cfgs="CfgsUnb", kinds="InitKindsCaller"), mc("Kinds-3x2", clients=C3, maxops=2, ops=KOPS, scripts="ScriptsStop", cfgs="CfgsUnb", kinds="InitKindsCaller"),
+               "thorough": [mc("Kinds-2x3", maxops=3, ops=KOPS, scripts="ScriptsStop", cfgs="CfgsUnb", kinds="InitKindsCaller"), 
                             mc("Kinds-sc-2x3", maxops=3, ops=KOPS, scripts="ScriptsRestart", cfgs="CfgsUnb", kinds="InitKindsSC")]},
         "dev_demo": [("D2", mc("Kinds-2x2", ops=KOPS, scripts="ScriptsStop", cfgs="CfgsUnb", kinds="InitKindsCaller"))],
         "families": [("life", 250, 2500), ("timers", 80, 800)],
